@@ -55,6 +55,9 @@ LEVEL_TEXTS = {
     'C20': 'History vs stateful model: definition messages and following data messages are produced by the reference model with its tables extended by the '
            'carried entries; each stream is scanned in a fresh interpreter and every data message compared field by field.',
 }
+TECHNIQUE_COMMON = ('; plus an interleaving injector at the API boundary (differently configured twin instances are handed the same '
+                    'input just before the observed call), object histories (one object through successful operations of different '
+                    'kinds vs a fresh object) and, where the property is about decoding, work done while a scan is suspended at a yield')
 NOT_YET = 'check not built yet in this round (see DESIGN.md section 3 for the planned monitor)'
 
 
@@ -81,7 +84,7 @@ def main():
                                text=mod.__doc__.strip().split('\n\n')[0].split('\n')[0] + ' ' + LEVEL_TEXTS.get(pid, '') + COMMON,
                                design_ref='DESIGN.md section 3, ' + pid),
             level_note='; '.join(getattr(mod, 'ASSUMPTIONS', [])),
-            technique=getattr(mod, 'TECHNIQUE', 'runtime monitoring'),
+            technique=getattr(mod, 'TECHNIQUE', 'runtime monitoring') + TECHNIQUE_COMMON,
         ))
     man = dict(
         version=1,
@@ -99,7 +102,8 @@ def main():
         engines=[dict(name='mon', path='mon/runner.py', serves_properties=[c['property_id'] for c in checks],
                       kind_free_text='runtime monitoring harness: sharded workloads over the real code, '
                                      'reference-model / differential / history oracles, bit-tape and boundary '
-                                     'monitors, sys.monitoring telemetry')],
+                                     'monitors, sys.monitoring telemetry, boundary interleaving injector (twins), '
+                                     'mid-scan scenarios, input-form variants')],
         checks=checks,
         notes=('Exit codes: 0 held, 1 VIOLATION, 2 INCONCLUSIVE (coverage/monitor thresholds not met). '
                'Genuine defects found and repaired are listed in known_findings.json as fixed entries.'),
